@@ -181,6 +181,30 @@ func genC16(g *Gen) {
 		g.un(ops[g.r.Intn(len(ops))], mk(false, c, e+g.r.Intn(2)*4))
 		g.un(ops[g.r.Intn(4)], mk(true, c, e))
 	})
+	// arguments whose leading digits are those of 2^64, 2^128, 2^192, 2^256 (the same digits as 2^W / 10, 2^W / 100: where a
+	// scaling loop "multiply by ten while it still fits W bits" stops), cut to 19, 20 and 34 digits, exactly and one unit
+	// above, at three magnitudes: the scaled argument lands in the narrow window where an off-by-a-carry bound wraps
+	{
+		lens := []int{19, 20, 34}
+		exps := []string{"Exp", "Expm1", "Exp2", "Exp10"}
+		g.gridRun(4*len(lens)*2*3*2, 0.08, func(i int) {
+			W := []uint{64, 128, 192, 256}[i%4]
+			n := lens[(i/4)%3]
+			up := (i / 12) % 2
+			mag := (i / 24) % 3 // 0.d, d.d, dd.d
+			op := []string{"Exp", "Expm1"}[i/72]
+			if g.thorough() && g.r.Intn(2) == 0 {
+				op = exps[g.r.Intn(4)]
+			}
+			ds := new(big.Int).Lsh(big.NewInt(1), W).String()
+			for len(ds) < n {
+				ds += "0"
+			}
+			c, _ := new(big.Int).SetString(ds[:n], 10)
+			c.Add(c, big.NewInt(int64(up)))
+			g.un(op, mk(g.r.Intn(3) == 0, c, -n+mag))
+		})
+	}
 	// Exp2 of integers from 250 up (2^n no longer fits 256 bits and is cut down in steps) and Exp10 of integers at both range ends
 	g.gridRun(60+12, 0.05, func(i int) {
 		if i < 60 {
